@@ -14,7 +14,9 @@ from ..baseclass import ndpoly
 
 HEADER_REGEX = re.compile(
     HEADER_TEMPLATE.format(
-        version=r"\S+", names=r"(\S+)", keys=r"(\S+)", shape=r"(\S*)"
+        # (a key is the characters of its exponents: some of them count as
+        # white space, e.g. exponent 74 = U+0085, exponent 101 = U+00A0)
+        version=r"\S+", names=r"(\S+)", keys=r"(.+)", shape=r"(\S*)"
     )
 )
 
